@@ -226,8 +226,8 @@ impl FixedMethod {
             }
         }
 
-        // Sort the suggestions.
-        self.suggestions.sort_unstable();
+        // Sort the suggestions (stable, so the emojis of a name keep their order).
+        self.suggestions.sort();
 
         // Reduce the number of suggestions and add the typed english word at the end.
         // Also check that the typed text is not already included (may happen
